@@ -202,3 +202,16 @@ Proof.
   - left. exists [1; 2], []. reflexivity.
   - left. exists [], [5; 6; 7]. reflexivity.
 Qed.
+
+(* WITHOUT the guard (the `n, m = common` of _is_condensed_ring, len(common) == 2): two rings that share two atoms which are
+   not neighbours - the merge expression depends on the unpack order (and is not even a ring spelling) *)
+Lemma merged_ring_unguarded_order_dependent :
+  let c := [1; 2; 3; 4] in let r := [1; 5; 3; 6] in
+  NoDup c /\ NoDup r /\ (forall x, In x c -> In x r -> x = 1 \/ x = 3) /\
+  merged_ring c r 1 3 = Ok [1; 1; 6; 4; 3; 2] /\ merged_ring c r 3 1 = Ok [1; 2; 5; 3; 3; 4].
+Proof.
+  cbn zeta. repeat split; try (vm_compute; reflexivity).
+  - repeat constructor; cbn; intuition lia.
+  - repeat constructor; cbn; intuition lia.
+  - cbn. intros x Hc Hr. intuition lia.
+Qed.
